@@ -19,7 +19,7 @@ CLAIMED = {
    text=('Theorems for all D and all series over any field: mulS is the Cauchy product, divS the unique solution of z*y=x, commutativity/associativity/distributivity, (x/y)*y=x; over R the '
          'coefficients are the Taylor coefficients of the product/quotient curve; dtype calculus (complex in => complex out for every operator x operand kind x order) as a finite table. '
          'Broadcasting and operand-kind dispatch are modelled (L2) and tied by the correspondence run over all kinds/orders/shape pairs/in-place and power forms; operator-level value law for UTPM o UTPM with NumPy broadcasting of the '
-         'coefficient shapes is a theorem (result element (p, idx), order d = Taylor coefficient of the product/quotient/sum of the operand curves at the broadcast positions), and so is UTPM o scalar (utpm_scalar_mul_div_value, utpm_scalar_add_sub_value: c enters every coefficient for * and /, only order 0 for + and -); ndarray constant operands (on either side), '
+         'coefficient shapes is a theorem (result element (p, idx), order d = Taylor coefficient of the product/quotient/sum of the operand curves at the broadcast positions), and so is UTPM o scalar (utpm_scalar_mul_div_value, utpm_scalar_add_sub_value: c enters every coefficient for * and /, only order 0 for + and -) and UTPM o ndarray constant with NumPy broadcasting of the constant against the coefficient shape (utpm_ndarray_mul_div_value, utpm_ndarray_add_sub_value; the reflected forms use the same model functions, c / x is the UTPM o UTPM law with a degree-0 numerator); '
          'in-place forms and powers are model + correspondence only (partial).')),
  'C10': dict(
    technique='Lean 4 theorems (zeroth coefficient of every kernel, comparison = all over zeroth coefficients, shape laws) + NumPy reference oracle',
